@@ -546,10 +546,20 @@ struct RecDriver
     real_type delta_intersection() const { return d.delta_intersection(); }
 };
 
+// thrown by the recording geometry when the propagator issues a call whose precondition
+// (CELER_EXPECT of the real navigator) does not hold: forwarding it would be undefined behaviour
+struct ProtocolError : std::runtime_error
+{
+    using std::runtime_error::runtime_error;
+};
+
 struct RecGeo
 {
     OrangeTrackView* g;
     Recorder* rec;
+    // the navigator's pending next step as its own answers established it
+    bool has_next{false}, has_b{false};
+    double nd{0};
 
     Real3 const& pos() const { return g->pos(); }
     Real3 const& dir() const { return g->dir(); }
@@ -562,12 +572,20 @@ struct RecGeo
         c.kind = "SetDir";
         rec->classify(d, c);
         rec->calls.push_back(c);
+        if (!(std::fabs(norm3(d) - 1) < 1e-6))
+            throw ProtocolError("protocol: set_dir with a non-unit direction");
+        has_next = has_b = false;
         g->set_dir(d);
     }
     Propagation find_next_step(real_type maxd)
     {
         rec->tick();
+        if (!(maxd > 0))
+            throw ProtocolError("protocol: find_next_step with a non-positive maximum");
         Propagation p = g->find_next_step(maxd);
+        has_next = true;
+        has_b = p.boundary;
+        nd = p.distance;
         RawCall c;
         c.kind = "Find";
         c.a = maxd;
@@ -580,6 +598,9 @@ struct RecGeo
     {
         rec->tick();
         Propagation p = g->find_next_step();
+        has_next = true;
+        has_b = p.boundary;
+        nd = p.distance;
         RawCall c;
         c.kind = "Find";
         c.a = std::numeric_limits<double>::infinity();
@@ -595,6 +616,7 @@ struct RecGeo
         c.kind = "MoveTo";
         c.a = dist3(p, g->pos());
         rec->calls.push_back(c);
+        has_next = has_b = false;
         g->move_internal(p);
     }
     void move_internal(real_type dist)
@@ -604,6 +626,9 @@ struct RecGeo
         c.kind = "MoveI";
         c.a = dist;
         rec->calls.push_back(c);
+        if (!(has_next && dist > 0 && dist <= nd && (dist != nd || !has_b)))
+            throw ProtocolError("protocol: move_internal(dist) without a pending step that long");
+        has_next = has_b = false;
         g->move_internal(dist);
     }
     void move_to_boundary()
@@ -612,6 +637,9 @@ struct RecGeo
         RawCall c;
         c.kind = "MoveB";
         rec->calls.push_back(c);
+        if (!(has_next && has_b))
+            throw ProtocolError("protocol: move_to_boundary without a pending boundary");
+        has_next = has_b = false;
         g->move_to_boundary();
     }
     void cross_boundary()
@@ -620,7 +648,7 @@ struct RecGeo
         RawCall c;
         c.kind = "Cross";
         rec->calls.push_back(c);
-        g->cross_boundary();
+        throw ProtocolError("protocol: cross_boundary called by the propagator");
     }
 };
 
@@ -746,7 +774,7 @@ struct RealRunner
 
         Propagation result;
         result.distance = 0;
-        bool hang = false;
+        bool hang = false, protocol = false;
         std::string exc;
         Real3 bnative{0, 0, 0};
         for (int i = 0; i < 3; ++i)
@@ -796,12 +824,18 @@ struct RealRunner
         {
             hang = true;
         }
+        catch (ProtocolError const& ex)
+        {
+            exc = clean(ex.what());
+            protocol = true;
+        }
         catch (std::exception const& ex)
         {
             exc = clean(ex.what());
         }
 
         json r = {{"e", "Real"}, {"id", ++id}};
+        r["protocol"] = protocol;
         std::ostringstream in;
         in.precision(17);
         in << G.name << " " << (s.positron ? "e+" : "e-") << " E=" << s.energy << " field=" << s.field.type
